@@ -16,7 +16,7 @@ import (
 // differ.  (SVG attributes: `currentColor` resolved from color in the loop that also resolves color="inherit".)
 func c15MapReadWhileRewritten(c *core.Check) {
 	p := c.Prog
-	r := c.Rule("R8", "no order-dependent rewriting of a map: in the module, a loop ranging over a map that stores into that map does not also read an entry of it under a key other than the key of the current iteration", 20)
+	r := c.Rule("R8", "no order-dependent rewriting of a map: in the module, a loop ranging over a map that stores into that map does not also read an entry of it under a key other than the key of the current iteration", 58)
 	n := 0
 	for _, fn := range p.ModFuncs {
 		if fn.Blocks == nil {
